@@ -1,4 +1,5 @@
 import MtailVerif.Proofs.TailerPoll
+import MtailVerif.Generated.Tailer
 /-! # C18 — Every matching log path is tailed, once -/
 namespace MtailVerif.C18
 open MtailVerif MtailVerif.TailerPoll
@@ -36,6 +37,19 @@ theorem after_poll_tailed_eq_eligible_delivered (cfg : Cfg) (t : T) :
   unfold poll
   rw [pats_fold_delivered]
   rfl
+
+/-- Obligation over regenerated facts: the control structure of the four functions the model
+    stands for, as `go/extract` reads it from tail.go on every run (conditions, loop headers, what
+    each branch ends in, locks, map updates; logging left out).  In particular: `Ignore` lets
+    through everything that can be stat'ed and is no directory; `TailPath` looks the path up and
+    registers it under one lock; a match that cannot be tailed does not end the walk over the
+    matches (`if err := t.TailPath(absPath); err != nil {}` has no way out), and neither does a
+    failed `doPatternGlob` end the polling loop. -/
+theorem tailer_shape :
+    Generated.Tailer.ignore = "filepath.Abs(); if err != nil {return true}; os.Stat(); if err != nil {return true}; if fi.Mode().IsDir() {return true}; return t.ignoreRegexPattern != nil && t.ignoreRegexPattern.MatchString(fi.Name())" ∧
+    Generated.Tailer.tailPath = "t.logstreamsMu.Lock(); defer t.logstreamsMu.Unlock(); if _, ok := t.logstreams[pathname]; ok {return nil}; logstream.New(); if err != nil {return err}; t.logstreams[pathname] =; t.wg.Add(); go {defer t.wg.Done(); for range l.Lines() {t.lines <-}; t.logstreamsMu.Lock(); delete(); logCount.Add(); t.logstreamsMu.Unlock()}; logCount.Add(); return nil" ∧
+    Generated.Tailer.doPatternGlob = "filepath.Glob(); if err != nil {return err}; for range matches {if t.Ignore(pathname) {continue}; filepath.Abs(); if err != nil {continue}; if err := t.TailPath(absPath); err != nil {}}; return nil" ∧
+    Generated.Tailer.pollLogPattern = "if err := t.doPatternGlob(pattern); err != nil {}; if t.logPatternPollWaker == nil {return }; t.wg.Add(); go {defer t.wg.Done(); <-t.initDone; if t.oneShot {return }; for  {select {case <-t.ctx.Done(): {return } case <-t.logPatternPollWaker.Wake(): {if err := t.doPatternGlob(pattern); err != nil {}}}}}" := ⟨rfl, rfl, rfl, rfl⟩
 
 /-- C18 (after the next pattern poll): every existing regular file that matches a pattern and is
     not ignored is tailed; everything tailed is an existing regular file, matches a pattern and is
